@@ -127,6 +127,80 @@ PRECONDITIONS = {
 }
 
 
+def _token_ctor(prog, fn, call) -> bool:
+    """Is *call* a construction of the lexer's Token class (also through an import alias)?"""
+    f = call.func
+    if not isinstance(f, ast.Name):
+        return False
+    if f.id == "Token":
+        return True
+    home = prog.global_home(fn.mod, f.id) if hasattr(prog, "global_home") else None
+    if home is None and f.id in fn.mod.imports:
+        return fn.mod.imports[f.id][1] == "Token"
+    return home is not None and home[1] == "Token"
+
+
+def _single_token_of_kind(prog, fn: Fn, kind: str) -> Optional[str]:
+    """None when every call of *fn* yields at most one token, of kind *kind*; else what is wrong."""
+    from ..cfg import cfg_of
+    from ..dataflow import cfg_node_of, reaching_definitions
+    toks = [n for n in walk_fn(fn.node) if isinstance(n, ast.Call) and _token_ctor(prog, fn, n)]
+    if not toks:
+        return "builds no Token at all"
+    kinds = set()
+    for t in toks:
+        k = t.args[0] if t.args else next((kw.value for kw in t.keywords if kw.arg == "type"), None)
+        kinds.add(fold_in_fn(k, fn, default=None) if k is not None else None)
+    if kinds != {kind}:
+        return f"builds token(s) of kind(s) {sorted(str(k) for k in kinds)}"
+    holders = {}                                     # local name -> Token calls assigned to it
+    for t in toks:
+        p = parent(t)
+        if isinstance(p, ast.Return):
+            continue
+        if isinstance(p, ast.Assign) and p.value is t and len(p.targets) == 1 and isinstance(p.targets[0], ast.Name):
+            holders.setdefault(p.targets[0].id, []).append(t)
+            continue
+        return f"a Token is built at line {t.lineno} and not returned as it is (`{text(p, 60)}`)"
+    for name in holders:
+        for u in walk_fn(fn.node):
+            if isinstance(u, ast.Name) and u.id == name and isinstance(u.ctx, ast.Load):
+                p = parent(u)
+                if isinstance(p, ast.Return) and p.value is u:
+                    continue
+                if isinstance(p, (ast.If, ast.While, ast.IfExp)) and p.test is u:
+                    continue
+                if isinstance(p, ast.UnaryOp) and isinstance(p.op, ast.Not):
+                    continue
+                if isinstance(p, ast.Compare) and len(p.ops) == 1 and isinstance(p.ops[0], (ast.Is, ast.IsNot)) \
+                        and isinstance(p.comparators[0], ast.Constant) and p.comparators[0].value is None:
+                    continue
+                return f"the token held in `{name}` is used for something else than being returned (`{text(p, 60)}`, line {u.lineno})"
+    g = cfg_of(fn)
+    rd = reaching_definitions(g, fn.params)
+    for r in walk_fn(fn.node):
+        if not isinstance(r, ast.Return) or r.value is None:
+            continue
+        v = r.value
+        if isinstance(v, ast.Constant) and v.value is None:
+            continue
+        if isinstance(v, ast.Call) and any(v is t for t in toks):
+            continue
+        if isinstance(v, ast.Name):
+            at = cfg_node_of(g, r)
+            ok = at is not None
+            for d in (rd.get(at, {}).get(v.id, set()) if ok else ()):
+                a = g.nodes[d].ast if d >= 0 else None
+                val = a.value if isinstance(a, ast.Assign) and len(a.targets) == 1 and isinstance(a.targets[0], ast.Name) else None
+                if not (val is not None and (any(val is t for t in toks) or (isinstance(val, ast.Constant) and val.value is None))):
+                    ok = False
+            if ok and rd.get(at, {}).get(v.id):
+                continue
+        return f"`{text(r, 60)}` (line {r.lineno}) returns something other than one freshly built {kind} token or None"
+    return None
+
+
+
 class Read:
     def __init__(self, fn, node, how, key):
         self.fn, self.node, self.how, self.key = fn, node, how, key
@@ -208,16 +282,18 @@ def check(run, prog):
                kinds=("unknown" if r.kinds is None else sorted(r.kinds)[:8]), kind_source=r.kind_source,
                roles=[f"{ro}:{d if not isinstance(d, list) else d[:4]}" for ro, d, _ in r.roles])
 
-    run.rule("R-17.3", "single tokens and no re-lexing: each comment / literal sub-parser builds exactly one token; outside the "
-             "lexer nothing constructs a Lexer, and `re` is used only by CheckHeader; token kinds are never derived from text",
-             floor=5)
+    run.rule("R-17.3", "single tokens and no re-lexing: in each comment / literal sub-parser every Token built has the "
+             "sub-parser's kind and is handed straight back by `return` (directly, or through a local that is only returned / "
+             "tested), and every `return` yields such a Token or None -- so one call produces at most one token and the text "
+             "stays inside it; outside the lexer nothing constructs a Lexer, and `re` is used only by CheckHeader; token kinds "
+             "are never derived from text", floor=5)
     for fname, kind in (("parse_string_literal", "STRING"), ("parse_char_literal", "CHAR_CONST"),
                         ("parse_line_comment", "COMMENT"), ("parse_multi_line_comment", "MULT_COMMENT")):
         fn = prog.method("Lexer", fname)
-        toks = [n for n in walk_fn(fn.node) if isinstance(n, ast.Call) and isinstance(n.func, ast.Name) and n.func.id == "Token"]
-        kinds = {fold_in_fn(t.args[0], fn, default=None) for t in toks}
-        run.ob("R-17.3", f"{fn.key}::single-token", len(toks) == 1 and kinds == {kind},
-               f"{fname} builds {len(toks)} token(s) of kinds {kinds}: the text must stay inside one {kind} token", fn.node)
+        run.require(fn is not None, f"anchor vanished: Lexer.{fname}")
+        why = _single_token_of_kind(prog, fn, kind)
+        run.ob("R-17.3", f"{fn.key}::single-token", why is None,
+               f"{fname}: {why}: the text of one {kind} must come back as exactly one {kind} token", fn.node)
     offenders = []
     for fn in prog.fns:
         rel = fn.mod.rel
